@@ -161,9 +161,12 @@ func New(config ...Config) (cluster *Cluster) {
 
 // Handler for Cluster.
 func (c *Cluster) Handler(ctx context.Context, request []byte, next core.NextIOHandler) (response []byte, err error) {
+	panicking := true // panic(nil) makes recover return nil: only this tells it from a return
 	defer func() {
 		if e := recover(); e != nil {
 			err = core.NewPanicError(e)
+		} else if panicking {
+			err = core.NewPanicError("panic called with nil argument")
 		}
 		if err == nil {
 			return
@@ -186,7 +189,9 @@ func (c *Cluster) Handler(ctx context.Context, request []byte, next core.NextIOH
 			response, err = c.Handler(ctx, request, next)
 		}
 	}()
-	if response, err = next(ctx, request); err == nil && c.OnSuccess != nil {
+	response, err = next(ctx, request)
+	panicking = false
+	if err == nil && c.OnSuccess != nil {
 		c.OnSuccess(ctx)
 	}
 	return
@@ -207,8 +212,13 @@ func Forking(ctx context.Context, request []byte, next core.NextIOHandler) (resp
 		forkingContext := clientContext.Clone().(*core.ClientContext)
 		forkingContext.URL = urls[i]
 		go func(ctx context.Context) {
+			panicking := true // panic(nil) makes recover return nil: only this tells it from a return
 			defer func() {
-				if e := recover(); e != nil && atomic.AddInt64(&count, -1) <= 0 {
+				e := recover()
+				if e == nil && panicking {
+					e = "panic called with nil argument"
+				}
+				if e != nil && atomic.AddInt64(&count, -1) <= 0 {
 					once.Do(func() {
 						err = core.NewPanicError(e)
 						close(done)
@@ -216,6 +226,7 @@ func Forking(ctx context.Context, request []byte, next core.NextIOHandler) (resp
 				}
 			}()
 			resp, e := next(ctx, request)
+			panicking = false
 			if e == nil {
 				once.Do(func() {
 					response = resp
@@ -251,14 +262,19 @@ func Broadcast(ctx context.Context, name string, args []interface{}, next core.N
 		forkingContext := clientContext.Clone().(*core.ClientContext)
 		forkingContext.URL = urls[i]
 		go func(i int, ctx context.Context) {
+			panicking := true // panic(nil) makes recover return nil: only this tells it from a return
 			defer func() {
 				if e := recover(); e != nil {
 					once.Do(func() { err = core.NewPanicError(e) })
+				} else if panicking {
+					once.Do(func() { err = core.NewPanicError("panic called with nil argument") })
 				}
 				wg.Done()
 			}()
 			var e error
-			if result[i], e = next(ctx, name, args); e != nil {
+			result[i], e = next(ctx, name, args)
+			panicking = false
+			if e != nil {
 				once.Do(func() { err = e })
 			}
 		}(i, core.WithContext(ctx, forkingContext))
